@@ -56,6 +56,7 @@ type c17File struct {
 type c17Case struct {
 	CT    string              `json:"ct"`           // "" = contentType unset
 	GL    string              `json:"gl,omitempty"` // "layout" entry of the Go-side data map gd ("" = none)
+	SH    []string            `json:"sh,omitempty"` // stock-helper names the application's context rebinds (oracle_c17_shadow.go)
 	Top   []*c17N             `json:"top"`
 	Files map[string]*c17File `json:"files"`
 }
@@ -83,6 +84,7 @@ var c17Universe = []string{
 	"m1", "m2", "m3", "m4", "m5", "m6", "m7", "m8", "gd",
 	"wrap", "twice", "wrapTag", "wrapWith", "wrapOpt", "c17inl", "c17of", "c17def", "c17body",
 	"c17def:c1", "c17def:c2", "c17def:c3", "c17def:c4",
+	"upcase", "capitalize", "raw", "len", "env", "json", // stock-helper names an application (or a data map) may rebind
 }
 var c17ContentParams = map[string][]string{"c1": nil, "c2": {"d1"}, "c3": {"d1", "d2"}, "c4": {"d3"}}
 
@@ -210,7 +212,7 @@ func (p *c17P) print(ns []*c17N) string {
 			f := p.c.Files[n.S]
 			if f != nil && n.Layout == "" && (n.NoData || len(n.Data) == 0) && !c17JSRule(p.c.CT, n.S) && !p.hasCFor(n.S, map[string]bool{}) {
 				// no data, no layout, no escaping, nothing that lives in the child scope: literally inline
-				sb.WriteString(p.print(f.Body))
+				sb.WriteString(p.c.wrapPartial(p.print(f.Body)))
 				break
 			}
 			if bare {
@@ -346,6 +348,7 @@ func c17Run(c *c17Case) (realO, inlO Obs, s c17Sources) {
 		rm["contentType"] = c.CT
 	}
 	rm["gd"] = c17GoMap(c)
+	c17BindShadows(rm, c, true)
 	rm["partialFeeder"] = func(name string) (string, error) {
 		if t, ok := s.realFiles[name]; ok {
 			return t, nil
@@ -389,6 +392,7 @@ func c17Run(c *c17Case) (realO, inlO Obs, s c17Sources) {
 		im["contentType"] = c.CT
 	}
 	im["gd"] = c17GoMap(c)
+	c17BindShadows(im, c, false)
 	im["c17body"] = func(id string, data map[string]interface{}, h plush.HelperContext) (template.HTML, error) {
 		src, ok := s.bodies[id]
 		if !ok {
@@ -423,9 +427,9 @@ func c17Run(c *c17Case) (realO, inlO Obs, s c17Sources) {
 			if c17JSRule(ct, lay) {
 				out2 = template.JSEscapeString(out2)
 			}
-			return template.HTML(out2), nil
+			return template.HTML(c.wrapPartial(out2)), nil
 		}
-		return template.HTML(out), nil
+		return template.HTML(c.wrapPartial(out)), nil
 	}
 	im["c17def"] = func(name, id string, h plush.HelperContext) {
 		h.Set("c17def:"+name, &c17Def{id: id, help: h})
@@ -433,11 +437,17 @@ func c17Run(c *c17Case) (realO, inlO Obs, s c17Sources) {
 	im["c17of"] = func(name, defID string, data map[string]interface{}, h plush.HelperContext) (template.HTML, error) {
 		if d, ok := h.Value("c17def:" + name).(*c17Def); ok {
 			out, err := plush.Render(s.bodies[d.id], c17Fresh(d.help, data))
-			return template.HTML(out), err
+			if err != nil {
+				return "", err
+			}
+			return template.HTML(c.wrapOf(out)), nil
 		}
 		if defID != "" {
 			out, err := plush.Render(s.bodies[defID], c17Fresh(h, data))
-			return template.HTML(out), err
+			if err != nil {
+				return "", err
+			}
+			return template.HTML(c.wrapOf(out)), nil
 		}
 		return "", errors.New("missing contentOf block: " + name)
 	}
@@ -474,6 +484,13 @@ func c17Features(c *c17Case) string {
 	var walk func(ns []*c17N, depth int)
 	walk = func(ns []*c17N, depth int) {
 		for _, n := range ns {
+			for _, d := range n.Data {
+				if d.K == "env" {
+					set["data-helper-name"] = true
+				} else if d.K == "g3" {
+					set["data-over-global"] = true
+				}
+			}
 			switch n.K {
 			case "let":
 				set["let"] = true
@@ -535,6 +552,9 @@ func c17Features(c *c17Case) string {
 	walk(c.Top, 0)
 	for _, f := range c.Files {
 		walk(f.Body, 1)
+	}
+	for _, n := range c.SH {
+		set[c17ShadowClass(n)] = true
 	}
 	fs := []string{}
 	for k := range set {
@@ -687,6 +707,15 @@ func c17Shrink(c *c17Case, shape string) *c17Case {
 				cur, changed = cand, true
 			}
 		}
+		for si := 0; si < len(cur.SH) && budget > 0; si++ {
+			cand := c17Clone(cur)
+			cand.SH = append(cand.SH[:si:si], cand.SH[si+1:]...)
+			budget--
+			if bad(cand) {
+				cur, changed = cand, true
+				si--
+			}
+		}
 		if cur.CT != "" && budget > 0 {
 			cand := c17Clone(cur)
 			cand.CT = ""
@@ -744,7 +773,9 @@ func (g *c17G) valueExpr(scope []string) string {
 }
 
 func (g *c17G) outExpr(scope []string) string {
-	switch g.r.Intn(9) {
+	switch g.r.Intn(11) {
+	case 9, 10:
+		return g.shadowExpr(scope)
 	case 0:
 		return `raw(g1)`
 	case 1:
@@ -804,12 +835,20 @@ type c17Env struct {
 func (g *c17G) data(params []string, scope []string) []c17KV {
 	var kv []c17KV
 	for _, p := range params {
-		if g.r.Chance(93) {
+		if p != "env" && g.r.Chance(93) {
 			kv = append(kv, c17KV{p, g.valueExpr(scope)})
 		}
 	}
 	if g.r.Chance(15) {
 		kv = append(kv, c17KV{"d4", g.valueExpr(scope)})
+	}
+	if (c17Has(params, "env") && g.r.Chance(93)) || g.r.Chance(3) {
+		// a data entry under a stock helper's name
+		kv = append(kv, c17KV{"env", g.valueExpr(scope)})
+	}
+	if g.r.Chance(7) {
+		// a data entry under the name of a value the caller's scope already has: the body sees the data's
+		kv = append(kv, c17KV{"g3", Pick(g.r, []string{`"D<3>"`, `g3 + "!"`, `"it's"`})})
 	}
 	if len(kv) > 1 && g.r.Bool() {
 		kv[0], kv[len(kv)-1] = kv[len(kv)-1], kv[0]
@@ -843,8 +882,11 @@ func (g *c17G) file(level int, layout bool, minC int) string {
 			f.Params = append(f.Params, p)
 		}
 	}
+	if g.r.Chance(8) {
+		f.Params = append(f.Params, "env") // expects a data entry under a stock helper's name
+	}
 	g.c.Files[name] = f
-	scope := append(append([]string{}, c17Globals...), f.Params...)
+	scope := append(g.globals(), f.Params...)
 	e := &c17Env{scope: scope, level: level, minC: minC}
 	f.Body = g.body(e, g.r.Range(1, 3))
 	if layout {
@@ -975,6 +1017,19 @@ func (g *c17G) body(e *c17Env, size int) []*c17N {
 				n.A = g.block(&sub)
 			}
 			out = append(out, n)
+			if c17Has(e.defined, name) && g.r.Chance(30) {
+				// the same stored block used again at once with fewer data entries: each use gets its own data only
+				n2 := &c17N{K: "cof", S: name}
+				for _, d := range n.Data {
+					if g.r.Bool() {
+						n2.Data = append(n2.Data, d)
+					}
+				}
+				if len(n2.Data) == 0 && g.r.Bool() {
+					n2.NoData = true
+				}
+				out = append(out, n2)
+			}
 		case !deep:
 			h := Pick(g.r, []string{"wrap", "wrap", "twice", "wrapTag", "wrapWith", "wrapOpt"})
 			n := &c17N{K: "blk", S: h}
@@ -1004,7 +1059,8 @@ func c17Gen(r *Rng) *c17Case {
 	c := &c17Case{Files: map[string]*c17File{}}
 	c.CT = Pick(r, []string{"", "", "text/html", "text/html", "application/javascript", "application/javascript", "application/javascript", "text/javascript; charset=utf-8"})
 	g := &c17G{r: r, c: c}
-	e := &c17Env{scope: append([]string{}, c17Globals...)}
+	g.genShadows()
+	e := &c17Env{scope: g.globals()}
 	c.Top = g.body(e, r.Range(1, 5))
 	return c
 }
@@ -1053,12 +1109,13 @@ func c17Check(rep *Report, c *c17Case, shrink bool) {
 func init() {
 	oracles["C17"] = func(cfg Config) []*Report {
 		rep := NewReport("C17", "C17", cfg)
-		rep.Rule = "random composition trees: top template + partial/layout files (nesting to depth 3, files reused), bodies of text (HTML/JS-significant characters), output tags over globals/data/loop variables, if/else, for, partial(name[,data][,layout]) with names ending '', .html, .js, .plush.html, .md, .js.html, data maps written as literals in the call or held as VALUES (`let m = {..[, layout]}` followed by 1-3+ uses as partial()/contentOf() data, also inside for / if / once- and twice-rendering block helpers and stored contentFor bodies; a Go-side map gd from the context, with or without a layout entry), contentFor/contentOf over 4 names in any number and order (with/without data, with/without default block, defined before/after/never, inside if/for/partials/blocks/layouts), Go block helpers using Block() once/twice, BlockWith(child+data) and HasBlock() (called with and without a block), block bodies of if/for/contentFor/contentOf-default/helpers empty (no statement at all) in ~6%; x contentType unset/html/javascript; each tree is printed as REAL (plush helpers) and INLINE (body spliced literally, or rendered stand-alone with a fresh context = visible values + data and inserted unescaped; JSEscapeString applied exactly under the documented rule) and both are rendered by plush; non-trivial = contains at least one composition; distinct by tree; failing trees are shrunk and bucketed by outcome shape + remaining composition features"
+		rep.Rule = "random composition trees: top template + partial/layout files (nesting to depth 3, files reused), bodies of text (HTML/JS-significant characters), output tags over globals/data/loop variables, if/else, for, partial(name[,data][,layout]) with names ending '', .html, .js, .plush.html, .md, .js.html, data maps written as literals in the call or held as VALUES (`let m = {..[, layout]}` followed by 1-3+ uses as partial()/contentOf() data, also inside for / if / once- and twice-rendering block helpers and stored contentFor bodies; a Go-side map gd from the context, with or without a layout entry), contentFor/contentOf over 4 names in any number and order (with/without data, with/without default block, defined before/after/never, inside if/for/partials/blocks/layouts), Go block helpers using Block() once/twice, BlockWith(child+data) and HasBlock() (called with and without a block), block bodies of if/for/contentFor/contentOf-default/helpers empty (no statement at all) in ~6%; a contentOf of a defined name is in 30% followed at once by a second use with a subset of its data; data maps also carry (7%) an entry named like a value of the caller's scope (g3) and (3%, or when the file expects it: 8% of files) an entry named like a stock helper (env); x application context: in 45% of the cases it rebinds stock-helper names (each of upcase, capitalize, raw, len as functions with the stock call shape and a different result; env, json as plain values; its own partial / contentOf = the stock one with the result bracketed) and ~18% of the output tags go through such a name, at every depth of composition; x contentType unset/html/javascript; each tree is printed as REAL (plush helpers) and INLINE (body spliced literally, or rendered stand-alone with a fresh context = visible values + data and inserted unescaped; JSEscapeString applied exactly under the documented rule) and both are rendered by plush; non-trivial = contains at least one composition; distinct by tree; failing trees are shrunk and bucketed by outcome shape + remaining composition features"
 		rep.Notes = append(rep.Notes,
 			"the JavaScript escaping rule of partial() (javascript content type and an extension other than .js/none) is treated as part of 'equals inline', as documented in partial_helper.go",
 			"when both the composition and the inline rendering fail (e.g. contentOf of an undefined name without default block) the messages are not compared",
 			"a contentFor body is rendered inline in the scope of its definition (values read at the time of contentOf) plus the data map; redefinition of a name uses the latest definition visible in scope",
 			"the only let statements generated bind a data map to a name that is unique in the case and is read only later in the same body or bodies nested in it; other let/assignment inside bodies is not generated (scope leakage out of a partial is C07/C09 territory), nor silent tags with HTML values inside blocks (C02)",
+			"bindings the application makes under the name of a stock helper are part of the caller's scope: the inline form binds the same functions/values in every stand-alone rendering and brackets the result of its partial/contentOf stand-ins exactly as the application's own partial/contentOf do",
 			"a data map held in a variable (or passed in from Go) is the same value at every use: each use is compared with the inline rendering under the map's entries as written, so a composition that changes its caller's map shows at the next use")
 		if cfg.Arg != "" {
 			var c c17Case
